@@ -190,6 +190,7 @@ pub fn run_conc(case: &Case) -> RunOutput {
         Ok((final_log, producers, pollers))
     });
     out.steps = sim.steps();
+    out.sim_micros = sim.inner.final_sim_micros.get();
     out.trace_hash = format!("{:016x}", sim.trace_hash());
     out.multi_choice_steps = sim.inner.multi_choice_steps.get();
     out.max_runnable = sim.inner.max_runnable.get();
